@@ -66,7 +66,7 @@ KINDS = [
     ("CONECT", lambda i: ["CONECT  413  412  414"]),
 ]
 KIND_NAMES = [k for k, _ in KINDS]
-QUICK_KINDS = ["hetatm-ligand-numbered-like-a-water", "hetatm-water-serial-of-another-atom", "ENDMDL-without-MODEL", "hetatm-water-blank-chain", "atom-line-damaged", "water-in-atom-record", "atom-new-residue", "atom-same-residue", "atom-insertion-code", "altloc-pair-B-first", "altloc-pair-alias-name", "hetatm-water", "hetatm-water-serial-10000", "hetatm-ligand", "atom-cut-after-z", "TER", "END", "blank-line", "unknown-record"]
+QUICK_KINDS = ["ENDMDL-without-MODEL", "hetatm-water-blank-chain", "atom-line-damaged", "water-in-atom-record", "atom-new-residue", "atom-same-residue", "atom-insertion-code", "altloc-pair-B-first", "altloc-pair-alias-name", "hetatm-water", "hetatm-water-serial-10000", "hetatm-ligand", "atom-cut-after-z", "TER", "END", "blank-line", "unknown-record"]
 
 PREFIX = ["HEADER    TEST", _atom("ATOM", 1, "N", "GLY", "A", 1, 1.5), _atom("ATOM", 2, "CA", "GLY", "A", 1, 2.5)]
 SUFFIX = [_atom("ATOM", 900, "CA", "ALA", "A", 99, 900.5), _atom("HETATM", 901, "O", "HOH", "A", 98, 901.5), "TER", "END"]
